@@ -1,0 +1,88 @@
+//go:build verif
+
+package parser
+
+import "sort"
+
+// Read-only accessors used by the verification harness (/verif, properties C06 and C20).
+// Nothing here changes the behaviour of the package; the file is only compiled with -tags verif.
+
+// VerifC06Flags returns the unexported flags of a token:
+// isInt (numeric tokens), isID (hash tokens), errString / errURL (string and url tokens).
+func VerifC06Flags(t Token) (isInt, isID, errString, errURL bool) {
+	var f flag
+	switch t := t.(type) {
+	case Comment:
+		f = t.flag
+	case Whitespace:
+		f = t.flag
+	case Ident:
+		f = t.flag
+	case AtKeyword:
+		f = t.flag
+	case Hash:
+		f = t.flag
+	case String:
+		f = t.flag
+	case URL:
+		f = t.flag
+	case Literal:
+		f = t.flag
+	case Number:
+		f = t.flag
+	case Percentage:
+		f = t.flag
+	case Dimension:
+		f = t.flag
+	}
+	return f&isInteger != 0, f&isIdentifier != 0, f&isErrorInString != 0, f&isErrorInURL != 0
+}
+
+// VerifC06ErrKind returns the kind byte of a ParseError ('b' bad-string, 'u' bad-url, ')' ']' '}'
+// unmatched closer, 's' eof-in-string, 'e' eof-in-url, 'n' invalid number, 'E' empty, 'x' extra
+// input, 'i' invalid).
+func VerifC06ErrKind(e ParseError) byte { return e.kind }
+
+// VerifC06BadPairs returns the serializer's separator table as a sorted list of pairs.
+func VerifC06BadPairs() [][2]string {
+	out := make([][2]string, 0, len(badPairs))
+	for k, v := range badPairs {
+		if v {
+			out = append(out, k)
+		}
+	}
+	sort.Slice(out, func(i, j int) bool {
+		if out[i][0] != out[j][0] {
+			return out[i][0] < out[j][0]
+		}
+		return out[i][1] < out[j][1]
+	})
+	return out
+}
+
+// VerifC06SerializeCompound serializes a parsed rule / declaration (serializeTo is unexported on
+// Compound values).
+func VerifC06SerializeCompound(c Compound) (s string, ok bool) {
+	switch c := c.(type) {
+	case QualifiedRule:
+		var w verifC06Builder
+		c.serializeTo(&w)
+		return string(w), true
+	case AtRule:
+		var w verifC06Builder
+		c.serializeTo(&w)
+		return string(w), true
+	case Declaration:
+		var w verifC06Builder
+		c.serializeTo(&w)
+		return string(w), true
+	}
+	return "", false
+}
+
+type verifC06Builder []byte
+
+func (b *verifC06Builder) WriteString(s string) (int, error) {
+	*b = append(*b, s...)
+	return len(s), nil
+}
